@@ -1,5 +1,5 @@
 """C15 — all forms of an operator give the same answer (DESIGN §8 C15)."""
-import json, os
+import json, os, re
 from vlib.core import Case, ROOT
 from vlib.gens import *
 
@@ -12,12 +12,43 @@ GEN_AUDIT = ["Dashu.Audit.GenInt"]
 # Tie A, typed translator: the by-reference operator forms `FBig ± &FBig`, `&FBig ± &FBig` regenerated from float/src/add.rs
 GEN_PROPS += ["Dashu.Props.GenFloatForms"]
 GEN_AUDIT += ["Dashu.Audit.GenFloatForms"]
+# Tie A, ownership-form bodies: every `fn` body stamped out by the helper macros of dashu-ratio / dashu-float / dashu-int
+# (and the hand-written operator impls of float/src/{add,mul,div,shift,iter}.rs, rational/src/{div,iter}.rs,
+# integer/src/iter.rs) regenerated into Gen/FormsGlue.lean; Props/C15Forms.lean: all forms of a rule = one core call
+GEN_PROPS += ["Dashu.Props.C15Forms"]
+GEN_AUDIT += ["Dashu.Audit.C15Forms"]
+# the two CONSUMING variants of float addition (add_val_val, add_ref_val of Gen/FloatAdd.lean) = the model; four variants agree
+GEN_PROPS += ["Dashu.Props.C15FloatAdd"]
+GEN_AUDIT += ["Dashu.Audit.C15FloatAdd"]
 REFINED = ["IBig operator bodies (impl_ibig_* sign tables, regenerated from source) = Int operation",
            "primitive-form wrapper try_into().unwrap(): fits / does-not-fit theorems per operation",
-           "trait-method forms: div_rem = (/, %), div_rem_euclid = (div_euclid, rem_euclid), UBig.div_rem(IBig) = IBig forms"]
-FRONTIER = ["dashu-ratio and dashu-float operator impls are in the GENERATED table too (212 and 606 impl calls), but only "
-            "their mutual agreement is required here (driver answers `agree`); the value they agree on is checked by the "
-            "ratio group (C04) and the float group (C03), and there is no Lean theorem about those impl bodies",
+           "trait-method forms: div_rem = (/, %), div_rem_euclid = (div_euclid, rem_euclid), UBig.div_rem(IBig) = IBig forms",
+           "dashu-ratio operator impl bodies (rational/src/helper_macros.rs: impl_binop_with_macro both rules, impl_binop_with_int "
+           "both directions, impl_binop_assign_by_taking; Inverse): regenerated per impl, all forms of a rule = the same core "
+           "call on the same numerator/denominator parts (into_parts = (numerator, denominator) proved for the regenerated accessors)",
+           "dashu-float operator impl bodies (float/src/helper_macros.rs: the 8 primitive-operand forms, the assign forms; the four "
+           "hand-written Mul impls; impl_div_or_rem_for_fbig; DivEuclid/RemEuclid/DivRemEuclid delegation; Inverse; Shl vs ShlAssign, "
+           "Shr vs ShrAssign; the 8 Add/Sub wrappers): regenerated per impl, forms proved to be the same term",
+           "the four hand-written variants of float addition (add_val_val, add_val_ref, add_ref_val, add_ref_ref, regenerated): each "
+           "= the float model's opAddSub at Context::max, hence all four agree on value, precision and panic for all operands "
+           "(hypothesis: Repr::digits_ub does not depend on the sign of the significand)",
+           "dashu-int helper_macros.rs ownership forms (forward_*_binop_to_repr, primitive forms, assign forms) regenerated per impl: "
+           "every form passes the same (sign, magnitude) operands to the regenerated sign table",
+           "DivRemAssign (both helper-macro rules used only for it): quotient left in self, remainder returned = div_rem; primitive forms",
+           "Sum / Product of UBig, IBig, FBig: one regenerated shape iter.fold(INIT, OP) = left fold of the operator form; driven (op fold) "
+           "against the explicit folds with every operator form (rational/src/iter.rs has the same text but is not compiled into "
+           "dashu-ratio: no `mod iter;` in rational/src/lib.rs — RBig/Relaxed offer no Sum/Product)"]
+FRONTIER = ["dashu-ratio and dashu-float operator impls: the driver still answers `agree` for `rform`/`fform` (their common VALUE "
+            "is decided in the ratio group C04 and the float group C03); the form theorems are over an abstract value domain in "
+            "which the cores ($impl! macros of rational/src/{add,mul,div}.rs, repr_div/repr_rem, repr_round, add_val_val … of "
+            "dashu-float) are uninterpreted, and they rest on two readings: `&x`, `x.clone()`, `mem::take(x)` denote x's value, "
+            "and a callee applied to an owned or a borrowed operand denotes the same function (for the integer operators inside "
+            "the cores that is the dashu-int part of this property)",
+            "dashu-int: the kernels specialised by ownership (TypedRepr vs TypedReprRef impls of add/sub/mul/div/bit ops: in place on "
+            "the left buffer, on the right buffer, allocate-new) are below the regenerated forms (hypotheses hrepr/hsign of the form "
+            "theorems); they are compared by execution against the model on every case",
+            "RemEuclid / DivRemEuclid by-value bodies of FBig and Inverse for Repr are regenerated resp. listed "
+            "(forms_glue_untranslated) but only the delegation of the reference forms to them is a theorem",
             "Context::add/sub/mul/div/rem are inherent methods, not trait impls: they are added to the FBig x FBig groups by "
             "name (at Context::max of the operand precisions); other Context methods (sqr, cubic, powi, exp, ln, ...) have no "
             "operator form and are compared with their FBig methods in the float group",
@@ -49,24 +80,129 @@ EXPLANATION = ("Proved: the regenerated IBig operator bodies equal the Int opera
                "body, agree); for primitive forms the result fits the output type for UBig % uN, IBig % iN, uN / UBig, and "
                "provably does not for IBig % uN (negative dividend), uN / negative IBig and iN::MIN / IBig(-1) (counterexample theorems = "
                "findings; iN / IBig fits for every other pair); the trait-method forms div_rem / div_rem_euclid / UBig.div_rem(IBig) "
-               "equal the pair of operator forms. "
+               "equal the pair of operator forms; for dashu-ratio, dashu-float and the dashu-int helper macros every operator impl body "
+               "is regenerated (one definition per call form) and all forms of one macro rule / one hand-written family are proved to "
+               "evaluate the same core call on the same operand values for every interpretation of the callees (incl. DivRemAssign, "
+               "x <<= n vs x << n, Sum/Product = fold of the operator). "
                "Explored by correspondence: every one of the generated impl calls (1720 integer, 212 rational, 606 float x 2 "
                "instantiations) on every case; clone/clone_from independence.")
-ASSUMPTIONS = ["the macro-expanded source printed by rustc is the code that is compiled (nightly -Zunpretty=expanded)"]
-LEVEL_TEXT = ("Lean theorems about the regenerated operator bodies and the primitive-form wrapper decide which forms must agree "
+ASSUMPTIONS = ["the macro-expanded source printed by rustc is the code that is compiled (nightly -Zunpretty=expanded)",
+               "the operator impl bodies the form theorems are about are all operator impls of dashu-float / dashu-ratio: checked on "
+               "every run by COUNT (impls generated by the source text = impls in the compiler's table: 606 and 212), not impl by impl"]
+LEVEL_TEXT = ("Lean theorems about the regenerated operator bodies (integer sign tables; every ownership-form impl body of the "
+              "helper macros and operator files of dashu-int, dashu-ratio, dashu-float; the four variants of float addition) and "
+              "the primitive-form wrapper decide which forms must agree "
               "for all inputs; the correspondence executes EVERY operator impl the compiler sees in dashu-int, dashu-ratio and "
               "dashu-float (tables generated from the "
               "macro-expanded crates on each run) on structured operands and requires identical values or "
               "identical panic kinds (integers: also equal to the model value).")
 LEVEL_NOTE = ("Trusted: Lean kernel; rustc's macro expansion listing; extraction of impl headers (vlib/forms.py); the "
-              "harness. For float/rational forms the driver only requires agreement; their common value is checked inside "
-              "their own groups. Form agreement of bodies that are not "
-              "regenerated (shifts, gcd, all float/rational bodies) rests on the correspondence only.")
-TECHNIQUE = "Lean 4 theorems on regenerated glue + generated exhaustive call-form table executed against the model"
+              "translators of vlib/extract.py (the ownership-form translator erases references, clones and mem::take and "
+              "keeps every callee uninterpreted); the harness. For float/rational forms the driver only requires agreement; "
+              "their common value is checked inside their own groups. Form agreement of bodies that are not regenerated "
+              "(integer shifts, bit ops below the sign tables, gcd, the ownership-specialised integer kernels) rests on the "
+              "correspondence only.")
+TECHNIQUE = ("Lean 4 theorems on regenerated glue (sign tables; one definition per operator impl body of the three crates) "
+             "+ generated exhaustive call-form table executed against the model")
 JOBS = 12
 
 PRIM_EDGES = [0, 1, 2, 3, 7, 127, 128, 129, 255, 256, 32767, 32768, 65535, 65536, 2**31 - 1, 2**31, 2**32 - 1, 2**32,
               2**63 - 1, 2**63, 2**64 - 1, 2**64, 2**127 - 1, 2**127, 2**128 - 1, 2**128]
+
+
+# ------------------------------------------------------------------ closure of the form theorems (source vs compiler)
+#
+# Props/C15Forms.lean is about the impl bodies that vlib/extract.py finds in the helper macros and operator files.  That
+# these are ALL operator impls of dashu-float / dashu-ratio is checked here on every run: the number of impls the source
+# text generates (macro invocations x impls per macro rule, list macros x their type lists, hand-written impls) must be
+# the number of impls the compiler reports in the macro-expanded crates (vlib/forms.py table).
+from vlib import extract as _X
+
+TABLE_TRAITS = {"Add", "Sub", "Mul", "Div", "Rem", "AddAssign", "SubAssign", "MulAssign", "DivAssign", "RemAssign",
+                "Shl", "Shr", "ShlAssign", "ShrAssign", "DivEuclid", "RemEuclid", "DivRemEuclid", "DivRem", "DivRemAssign"}
+
+def strip_macro_defs(src):
+    out, i = [], 0
+    for m in re.finditer(r"macro_rules!\s+\w+\s*\{", src):
+        if m.start() < i:
+            continue
+        out.append(src[i:m.start()])
+        i = _X.balanced(src, m.end() - 1)
+    out.append(src[i:])
+    return "".join(out)
+
+def predicted(files, helper):
+    macros = {}
+    for rel in [helper] + files:
+        src = _X.read(rel)
+        for name in re.findall(r"macro_rules!\s+(\w+)\s*\{", src):
+            macros[name] = (rel, _X.macro_rules_all(src, name, rel))
+    memo = {}
+    def per_invocation(name, ntoks):
+        rel, rules = macros[name]
+        counts = set()
+        for pat, body in rules:
+            code = re.sub(r"//[^\n]*", "", body)
+            rep = re.match(r"\s*\$\(\s*(.*)\)\s*\*\s*$", code, re.S)
+            if rep:                                   # list macro: the body is repeated per token of the argument list
+                inner = _X.rule_items(rep.group(1), rel)
+                counts.add(ntoks * sum(per_invocation(it[1], 1) for it in inner if it[0] == "invoke"))
+                continue
+            items = _X.rule_items(body, rel)
+            impls = [it for it in items if it[0] == "impl"]
+            inv = [it[1] for it in items if it[0] == "invoke"]
+            if not impls and inv == [name]:
+                continue                              # forwards to another rule of itself
+            n = 0
+            for it in impls:
+                n += 1
+            n += sum(per_invocation(v, 1) for v in inv if v != name)
+            counts.add(n)
+        if len(counts) != 1:
+            raise _X.ExtractError("macro %s: rules generate different numbers of impls %s" % (name, counts))
+        return counts.pop()
+    total, detail = 0, []
+    for rel in files:
+        src = strip_macro_defs(_X.read(rel))
+        for m in re.finditer(r"(?m)^(?:\w+::)*(\w+)!\s*\(", src):
+            name = m.group(1)
+            if name not in macros:
+                continue
+            j = _X.balanced(src, m.end() - 1, "(", ")")
+            args = src[m.end():j - 1]
+            is_list = any(re.match(r"\s*\$\(", re.sub(r"//[^\n]*", "", b)) for _, b in macros[name][1])
+            ntoks = len(args.split()) if is_list else 1
+            mm = re.match(r"\s*impl\s+(\w+)", args)
+            if mm and mm.group(1) not in TABLE_TRAITS:
+                continue
+            n = per_invocation(name, ntoks)
+            total += n
+            detail.append((rel, name, args.strip()[:40], n))
+        for m in re.finditer(r"(?m)^impl\b", src):
+            b0 = src.index("{", m.start())
+            try:
+                trait, rhs, lhs = _X.impl_header(" ".join(src[m.start():b0].split()), rel)
+            except _X.ExtractError:
+                continue
+            if trait in TABLE_TRAITS:
+                total += 1
+                detail.append((rel, "hand-written", trait + " for " + lhs[:20], 1))
+    return total, detail
+
+
+CLOSURE = {"float": (["float/src/add.rs", "float/src/mul.rs", "float/src/div.rs", "float/src/shift.rs"], "float/src/helper_macros.rs"),
+           "ratio": (["rational/src/add.rs", "rational/src/mul.rs", "rational/src/div.rs"], "rational/src/helper_macros.rs")}
+
+
+def forms_closure(more):
+    out = {}
+    for crate, (files, helper) in CLOSURE.items():
+        try:
+            n, _ = predicted(files, helper)
+            out[crate] = {"source": n, "compiler": more[crate]["impls_covered"], "ok": n == more[crate]["impls_covered"]}
+        except (_X.ExtractError, KeyError, IndexError, ValueError) as e:
+            out[crate] = {"error": str(e), "ok": False}
+    return out
 
 
 def pre_build():
@@ -74,6 +210,17 @@ def pre_build():
     from vlib import forms
     info = forms.regenerate()
     info["more"] = forms.regenerate_more()
+    info["closure"] = forms_closure(info["more"])
+    bad = {k: v for k, v in info["closure"].items() if not v["ok"]}
+    if bad:
+        # the operator impls the compiler sees are no longer the ones the form theorems are about: the property is not shown
+        import sys
+        path = os.path.join(ROOT, "replays", "C15-forms-closure.case")
+        os.makedirs(os.path.dirname(path), exist_ok=True)
+        with open(path, "w") as f:
+            f.write("# operator impls generated by the source text vs. reported by the compiler: %s\n" % json.dumps(bad))
+        print("VIOLATION property=C15 replay=%s no-failing-input-found" % path)
+        sys.exit(1)
     return info
 
 
@@ -323,6 +470,43 @@ def kf_float_div_long_dividend(args, impl):
                      r"assertion_failed:_lhs\.digits\(\)_<=_self\.precision_\+_rhs\.digits\(\)\)\]$", impl) is not None
 
 
+def fold_cases(rng, tier):
+    """`Sum` / `Product` (iter.rs: `iter.fold(INIT, OP)`) against the explicit left folds with the owned, borrowed and
+    compound-assignment operator, for every item form the blanket impl admits; 0..6 items (the empty iterator gives
+    INIT), items across the inline/heap boundary, zeros and ones inside products, sign mixes"""
+    n = 30 if tier == "quick" else 800
+    for _ in range(n):
+        k = rng.choice([0, 1, 2, 2, 3, 4, 6])
+        kind = rng.choice(["sum", "product"])
+        ty = rng.choice(["u", "i", "i", "z2", "h10"])
+        if ty in ("u", "i"):
+            items = [hx(val(rng, ty.upper(), small_bias=0.7)) for _ in range(k)]
+        else:
+            items = [flt(rng) if rng.random() < 0.8 else "n:" + hx(rng.choice([0, 1, -1, 7, 255, 2**64, -2**63])) for _ in range(k)]
+        yield Case("fold", [ty, kind] + items)
+
+
+def inf_cases(rng, tier):
+    """an INFINITE operand on either side of every float operation: every call form (operator, assign, primitive-operand,
+    Context method, shift, fold) must raise the same panic kind — the `assert_finite*` guard sits in each hand-written body"""
+    _, fg = more_groups()
+    for inst in ("z2", "h10"):
+        for fam, shape in fg:
+            for side in ((0, 1) if tier == "quick" else (0, 1, 0, 1, 2)):
+                inf = "inf:%s:%d" % (rng.choice("+-"), rng.choice([0, 1, 5, 20]))
+                if shape == "FF":
+                    a, b = (inf, flt(rng)) if side == 0 else ((flt(rng), inf) if side == 1 else (inf, inf))
+                    yield Case("fform", [inst, fam, shape, a, b])
+                elif shape == "FN" and side != 1:
+                    yield Case("fform", [inst, fam, shape, inf, "n:" + hx(rng.choice([0, 1, -1, 255, 2**64]))])
+                elif shape == "NF" and side != 0:
+                    yield Case("fform", [inst, fam, shape, "n:" + hx(rng.choice([0, 1, -1, 255, 2**64])), inf])
+                elif shape == "FS" and side != 1:
+                    yield Case("fform", [inst, fam, shape, inf, "n:0", dec(rng.choice([0, 1, -1, 64]))])
+        for kind in ("sum", "product"):
+            yield Case("fold", [inst, kind, flt(rng), "inf:+:5", flt(rng)])
+
+
 _generate_int = generate
 
 
@@ -330,6 +514,8 @@ def generate(rng, tier):
     yield from _generate_int(rng, tier)
     yield from panic_boundary_cases(rng, tier)
     yield from generate_more(rng, tier)
+    yield from fold_cases(rng, tier)
+    yield from inf_cases(rng, tier)
 
 
 READY = True
